@@ -1,0 +1,23 @@
+//go:build verif
+
+package chord
+
+// Contracts for govc (contract-based deductive verification, see /verif/DESIGN.md).
+// This file is compiled only with -tags verif and contains no executable code.
+
+// The abstract dictionary: spec.dictHas/dictLen/dictNum/dictQual are the model
+// fields of a Mapper (which symbols it knows, and the interval list each expands to,
+// inherited intervals first).
+
+//@ iface Mapper.GetChordAttributes (m, name) returns (attrs, ok)
+//@   allocs []Attribute
+//@   ensures ok == spec.dictHas(m, name)
+//@   ensures spec.dictLen(m, name) >= 0
+//@   ensures ok ==> len(attrs) == spec.dictLen(m, name)
+//@   ensures ok ==> forall(j, 0, len(attrs), attrs[j].Degree.Value == spec.dictNum(m, name, j) && note.qual(attrs[j].Degree.Name) == spec.dictQual(m, name, j))
+
+//@ func Attribute.Semitone returns (s, ok)
+//@   pure
+//@   ensures ok == spec.validInterval(a.Degree.Value, note.qual(a.Degree.Name))
+//@   ensures ok ==> s == spec.intervalSize(a.Degree.Value, note.qual(a.Degree.Name))
+//@   ensures !ok ==> s == 0
